@@ -110,11 +110,11 @@ def run(tier: str, seed: int) -> int:
 
     # ---- 1. Rectify: model, then spec -> code ---------------------------------------------------------
     released = rectify_released()
-    nraw = 4 if quick else 5
-    m = run_tlc("Rectify", cfg_text(constants={"N": nraw, "Fixed": not released, "Emit": True},
+    nraw = 4
+    m = run_tlc("Rectify", cfg_text(constants={"N": nraw, "Lens": {2} if quick else {2, 3}, "Fixed": not released, "Emit": True},
                                     invariants=[] if released else ["Correct", "InBounds"]), timeout=3000, heap="10g")
     expect_model_ok(m, "Rectify")
-    rep.model(m, f"_rectify_templated_slices ({'released' if released else 'repaired'} algorithm), {nraw} raw slices, <=2 modified tags, loop visited <=2x")
+    rep.model(m, f"_rectify_templated_slices ({'released' if released else 'repaired'} algorithm), {nraw} raw slices, <=3 modified tags, loop visited <=2x")
     if not m.records:
         raise MachineryError("Rectify emitted nothing")
     for rec in m.records:
